@@ -286,3 +286,83 @@ class Synth:
     def describe(self):
         return {"class": self.cls, "order": self.order, "nseg": len(self.segs), "nphdr": len(self.phdrs), "nshdr": len(self.shdrs),
                 "nsym": len(self.syms), "size": len(self.image)}
+
+
+class Tiny:
+    """a well-formed ELF image of a few hundred bytes (always below 1 KB): ELF header, one PT_LOAD program header, a few
+    bytes of code, a two-entry symbol table, .strtab, .shstrtab and five section headers (null, .text, .symtab, .strtab,
+    .shstrtab).  Every table position and entry size is recorded, so that the fields describing a table can be rewritten:
+    self.ehdr (dict), self.offs (phdr / shdr / ...), self.esz (true entry sizes), self.F (struct formats), and
+    with_ehdr(**fields) / with_shdr(i, **fields) return modified copies of the image."""
+
+    def __init__(self, rng, cls, order):
+        self.cls, self.order = cls, order
+        self.F = F = fmts(cls, order)
+        esz = self.esz = {k: struct.calcsize(F[k][0]) for k in F}
+        ehsize = 16 + esz["ehdr"]
+        code = rng.randbytes(rng.randrange(8, 33))
+        strtab = b"\0main\0"
+        shstr = b"\0.text\0.symtab\0.strtab\0.shstrtab\0"
+        offs, pos = {}, ehsize
+        for name, n, al in (("phdr", esz["phdr"], 8), ("text", len(code), 4), ("symtab", 2 * esz["sym"], 8), ("strtab", len(strtab), 1),
+                            ("shstrtab", len(shstr), 1), ("shdr", 5 * esz["shdr"], 8)):
+            pos = (pos + al - 1) // al * al
+            offs[name] = pos
+            pos += n
+        total = pos + rng.randrange(0, 9)
+        va = rng.randrange(1, 1 << 15) * 0x1000
+        img = bytearray(rng.randbytes(total))
+        img[offs["text"]:offs["text"] + len(code)] = code
+        img[offs["strtab"]:offs["strtab"] + len(strtab)] = strtab
+        img[offs["shstrtab"]:offs["shstrtab"] + len(shstr)] = shstr
+        z = dict(sh_name=0, sh_type=0, sh_flags=0, sh_addr=0, sh_offset=0, sh_size=0, sh_link=0, sh_info=0, sh_addralign=0, sh_entsize=0)
+        self.shdrs = [dict(z),
+                      dict(z, sh_name=1, sh_type=SHT_PROGBITS, sh_flags=SHF_ALLOC | SHF_EXEC, sh_addr=va + offs["text"], sh_offset=offs["text"],
+                           sh_size=len(code), sh_addralign=4),
+                      dict(z, sh_name=7, sh_type=SHT_SYMTAB, sh_offset=offs["symtab"], sh_size=2 * esz["sym"], sh_link=3, sh_info=1,
+                           sh_addralign=8, sh_entsize=esz["sym"]),
+                      dict(z, sh_name=15, sh_type=SHT_STRTAB, sh_offset=offs["strtab"], sh_size=len(strtab), sh_addralign=1),
+                      dict(z, sh_name=23, sh_type=SHT_STRTAB, sh_offset=offs["shstrtab"], sh_size=len(shstr), sh_addralign=1)]
+        syms = [dict(st_name=0, st_value=0, st_size=0, st_info=0, st_other=0, st_shndx=0),
+                dict(st_name=1, st_value=va + offs["text"], st_size=len(code), st_info=(1 << 4) | STT_FUNC, st_other=0, st_shndx=1)]
+        self.phdrs = [dict(p_type=PT_LOAD, p_offset=0, p_vaddr=va, p_paddr=va, p_filesz=total, p_memsz=total, p_flags=5, p_align=0x1000)]
+        self.ehdr = dict(e_type=2, e_machine=rng.choice([3, 62, 40, 8, 2, 20, 243, 183]), e_version=1, e_entry=va + offs["text"], e_phoff=offs["phdr"],
+                         e_shoff=offs["shdr"], e_flags=0, e_ehsize=ehsize, e_phentsize=esz["phdr"], e_phnum=1, e_shentsize=esz["shdr"],
+                         e_shnum=5, e_shstrndx=4)
+        img[0:16] = bytes([0x7F, 0x45, 0x4C, 0x46, 1 if cls == 32 else 2, 1 if order == "<" else 2, 1, 0, 0]) + b"\0" * 7
+        self.offs = offs
+        self._put(img, "ehdr", 16, self.ehdr)
+        self._put(img, "phdr", offs["phdr"], self.phdrs[0])
+        for i, y in enumerate(syms):
+            self._put(img, "sym", offs["symtab"] + i * esz["sym"], y)
+        for i, d in enumerate(self.shdrs):
+            self._put(img, "shdr", offs["shdr"] + i * esz["shdr"], d)
+        self.image = bytes(img)
+
+    def _put(self, img, kind, off, d):
+        f, fn = self.F[kind]
+        img[off:off + struct.calcsize(f)] = struct.pack(f, *[d[n] for n in fn])
+
+    def with_ehdr(self, image=None, **fields):
+        """the image with the given ELF header fields replaced (values are reduced to the width of the field)"""
+        img = bytearray(self.image if image is None else image)
+        f, fn = self.F["ehdr"]
+        widths = dict(zip(fn, [struct.calcsize(self.order + c) for c in f[1:]]))
+        d = dict(self.ehdr)
+        for k, v in fields.items():
+            d[k] = v & ((1 << (8 * widths[k])) - 1)
+        self._put(img, "ehdr", 16, d)
+        return bytes(img)
+
+    def with_shdr(self, i, image=None, **fields):
+        """the image with fields of the i-th section header replaced.  Entry 0 (the null section header) is the one that
+        the gABI's extended section numbering reads: sh_size holds the real e_shnum, sh_link the real e_shstrndx (and, in
+        the Linux/Solaris convention, sh_info the real e_phnum)"""
+        img = bytearray(self.image if image is None else image)
+        f, fn = self.F["shdr"]
+        widths = dict(zip(fn, [struct.calcsize(self.order + c) for c in f[1:]]))
+        d = dict(self.shdrs[i])
+        for k, v in fields.items():
+            d[k] = v & ((1 << (8 * widths[k])) - 1)
+        self._put(img, "shdr", self.offs["shdr"] + i * self.esz["shdr"], d)
+        return bytes(img)
